@@ -11,8 +11,9 @@ META = {
              "mj_addContact, arenaAllocEfc (any X-macro request list), arenaAllocIsland and pushPairArena never write through a NULL result; after a failed allocation the client state is consistent "
              "(ncon unchanged, parena rolled back to the end of the contact array / to its value at entry, every efc/island pointer NULL, nefc = nisland = 0, the right mjWARN_* raised, stack and memory untouched) and on success the arrays are non-NULL, consecutive, inside the arena and below the stack. "
              "pushPairArena is modelled in two variants: the code as it is now (NULL test on the result -> mju_error; C20_push_pair) and the code before /repo's repair f316da95f (test on the argument; C20_unfixed_push_pair_refuted: writes through NULL); arenaAllocIsland likewise (failure branch mj_clearEfc + rollback as it is now / clearIsland before repair 62d89235a, which left contact efc_address stale with nefc = 0); the check decides by replay which variants the working tree implements, reports an impl_violation for the old ones (corpus: site calls with too few free bytes, 80-body scene at memory 50000, 12-body cluster scene at memory 251616) and ties the variant found. "
+             "Also proved (C20_alloc_dual) for mj_makeY (sparse and dense branch) and the dense branch of mj_makeAR, modelled as phases of mjSTACKALLOCs followed by a group of arena allocations that are tested together: if the NULL test looks at every pointer of the group the function never writes through NULL, restores the stack, and either allocates everything or reaches the failure state of the other sites; the hypothesis is needed (C20_untested_pointer_refuted). These three branches are tied like the four sites (mj_makeY / mj_makeAR called on a forwarded mjData of sparse+PGS and dense+PGS scenes at free-byte counts around every cumulative requirement, stack use included; the phase lists are transcribed by hand from engine_core_constraint.c, so a reordering there shows up as a correspondence failure). "
              "Tie: each of the four site functions of the working tree is called on a real mjData (scene built with the mjSpec API, after mj_forward) with a swept number of free arena bytes, and return value, parena, pstack, maxuse_arena, ncon, nefc, nisland, every efc/island pointer and the warning raised are compared exactly with the model (request lists taken from the X-macros of the tree). "
-             "NOT proved, only observed on the inputs of the run: the behaviour of whole mj_step under small memory (other mj_arenaAllocByte call sites: narrowphase contact batches, flex, SDF, dual/efm arrays, derivative cache; and stack overflow exits): the same scenes are simulated with spec->memory (or m->narena after compilation, which reaches arenas of a few hundred bytes) swept from 0 to the needed size, refined adaptively down to single bytes wherever the outcome changes (sizes that are not multiples of 8 included; one scene has parena = 4 mod 8 before its first mjtNum array), with guard zones around the arena, crash detection, a per-allocation oracle evaluated by link-time wrappers after EVERY mj_arenaAllocByte / mj_stackAlloc* call of the engine (block inside [arena+parena, arena+narena-pstack), aligned, 0 <= parena <= narena-pstack; for bump allocators this implies pairwise disjointness and disjointness from the stack region), and checks that every failed arena allocation is followed by a warning or a catchable mju_error, that maxuse_arena <= narena and that ncon/nefc/efc pointers/efc_address/parena/pstack are consistent after every completed step. The same per-allocation oracle runs inside the site-level calls, whose free-byte counts cover every exact-fit size (with and without alignment padding) of every prefix of the request lists. "
+             "NOT proved, only observed on the inputs of the run: the behaviour of whole mj_step under small memory (other mj_arenaAllocByte call sites: narrowphase contact batches, the sparse branch of mj_makeAR, flex/efm arrays -- not reached: no flex in the scenes --; and stack overflow exits); the sweep scenes vary the options that decide which allocation sites run at all (sparse/dense Jacobian, PGS/CG/Newton, noslip, diagexact, elliptic cones, implicit/implicitfast/RK4, islands) and every allocation site gets its own window of memory sizes in the refinement (keyed by which allocation failed last): the same scenes are simulated with spec->memory (or m->narena after compilation, which reaches arenas of a few hundred bytes) swept from 0 to the needed size, refined adaptively down to single bytes wherever the outcome changes (sizes that are not multiples of 8 included; one scene has parena = 4 mod 8 before its first mjtNum array), with guard zones around the arena, crash detection, a per-allocation oracle evaluated by link-time wrappers after EVERY mj_arenaAllocByte / mj_stackAlloc* call of the engine (block inside [arena+parena, arena+narena-pstack), aligned, 0 <= parena <= narena-pstack; for bump allocators this implies pairwise disjointness and disjointness from the stack region), and checks that every failed arena allocation is followed by a warning or a catchable mju_error, that maxuse_arena <= narena and that ncon/nefc/efc pointers/efc_address/parena/pstack are consistent after every completed step. The same per-allocation oracle runs inside the site-level calls, whose free-byte counts cover every exact-fit size (with and without alignment padding) of every prefix of the request lists. "
              "C20_monotone of the design (retained contacts form a prefix) is not claimed: narrowphase allocates contacts per batch, all or nothing. Call sites not modelled are listed in the evidence."),
     "note": "Trusted: Coq kernel; hand-written models Model/Memory.v and Model/ArenaClients.v; correspondence harness (gcc, drivers c20_sites.c which includes three engine .c files textually, c20_sweep.c with --wrap=mj_arenaAllocByte); ASan not used (guard zones of 256 bytes instead).",
     "assumptions": ["request sizes of the X-macros do not overflow size_t", "mju_error does not return", "whole-step behaviour under small memory is observed, not proved",
@@ -33,9 +34,21 @@ SWEEP_SCENES = [("6", "2", "0", "1", "0"), ("12", "2", "0", "1", "1"), ("9", "0"
 PRE = ("Inductive scase := SC (site : Z) (fixed ic : bool) (csz cal psz pal b na pa ps ma nc ne ni : Z) (ep ip : list Z) (reqs : list Z) (out : list Z).\n"
        "Fixpoint pairs (l : list Z) : list (Z * Z) := match l with a :: b :: r => (a, b) :: pairs r | _ => [] end.\n"
        "Definition site_run (c : scase) : list Z := match c with SC site fixed ic csz cal psz pal b na pa ps ma nc ne ni ep ip reqs out =>\n"
-       "  let c0 := mkcl (mkst b na pa ps 0 0 ma false []) nc ne ni ep ip [] in\n"
+       "  let c0 := mkcl (mkst b na pa ps 0 0 ma false []) nc ne ni ep ip [] [] in\n"
        "  obs_cl 0 (if site =? 0 then push_pair true fixed psz pal c0 else if site =? 1 then add_contact true csz cal c0\n"
        "            else if site =? 2 then alloc_efc true csz (pairs reqs) c0 else alloc_island true ic csz (pairs reqs) c0) end.\n")
+# mj_makeY / mj_makeAR(dense): phased client (alloc_dual); the functions are void, so the return value is not observed
+DPRE = ("Inductive dcase := DC (csz b na pa ps ma nc ne ni : Z) (ep ip dp : list Z) (phs : list phase) (out : list Z).\n"
+        "Definition obs_d (o : outc) : list Z := match o with\n"
+        "  | Done _ c => [0; parena (ms c); pstack (ms c); maxa (ms c); ncon c; nefc c; nisland c] ++ efcp c ++ islp c ++\n"
+        "                (match warns c with (k, i) :: _ => [1; k; i] | [] => [0; 0; 0] end) ++ dualp c\n"
+        "  | ErrExit _ => [1] | NullWrite => [2] end.\n"
+        "Definition dual_run (c : dcase) : list Z := match c with DC csz b na pa ps ma nc ne ni ep ip dp phs out =>\n"
+        "  obs_d (alloc_dual true true true csz phs (mkcl (mkst b na pa ps 0 0 ma false []) nc ne ni ep ip [] dp)) end.\n")
+DCHECKER = "fun c => match c with DC _ _ _ _ _ _ _ _ _ _ _ _ _ out => zlist_eqb (dual_run c) out end"
+SITE_NAME_D = {"Y": "mj_makeY", "A": "mj_makeAR"}
+# scenes for the dual sites: sparse + PGS, dense + PGS (third field: cone + 10 * option bits, see c19_scene.h)
+DUAL_SCENES = [("5", "2", "50", "1", "0"), ("5", "2", "60", "0", "0"), ("3", "4", "51", "1", "10"), ("4", "1", "61", "0", "0")]
 CHECKER = "fun c => match c with SC _ _ _ _ _ _ _ _ _ _ _ _ _ _ _ _ _ _ out => zlist_eqb (site_run c) out end"
 
 
@@ -58,12 +71,18 @@ def parse_sites(out, tests):
             ni = t[7 + ne]
             r["ip"] = t[8 + ne:8 + ne + ni]
             i += 3
+            if i < len(lines) and lines[i].startswith("D "):
+                r["dinfo"] = list(map(int, lines[i].split()[1:]))   # sparse nv nefc nY nA
+                i += 1
             if i < len(lines) and lines[i].startswith("O "):
                 r["post"] = list(map(int, lines[i].split()[1:]))
                 r["wviol"] = r["post"][-7:]     # per-allocation oracle of c20_wrap.h: count, first violation
                 del r["post"][-7:]
                 r["nstale"] = r["post"].pop()
                 i += 1
+                if i < len(lines) and lines[i].startswith("P "):
+                    r["dual"] = list(map(int, lines[i].split()[2:]))
+                    i += 1
             elif i < len(lines) and lines[i].startswith("X "):
                 r["crash"] = int(lines[i].split()[1])
                 i += 1
@@ -79,7 +98,8 @@ def site_oracle(r):
     """independent oracle on the implementation output of one site call"""
     bad = []
     if r["crash"] is not None:
-        return [("null_check_on_wrong_pointer" if r["site"] == "P" else "crash", "returns or raises mju_error", "process killed by signal %d" % r["crash"])]
+        return [("null_check_on_wrong_pointer" if r["site"] == "P" else "crash", "returns (with a warning) or raises mju_error; a failed arena allocation is never dereferenced",
+                 "process killed by signal %d" % r["crash"])]
     kind, ret = r["post"][0], r["post"][1]
     parena, pstack, maxa, ncon, nefc, nisl = r["post"][2:8]
     ne, ni = len(r["ep"]), len(r["ip"])
@@ -88,8 +108,10 @@ def site_oracle(r):
     p0, ps0, ma0, nc0, nefc0, nisl0 = r["pre"]
     base, narena, csz = r["base"], r["narena"], r["csz"]
     if kind == 1:
-        if r["site"] != "P":
+        if r["site"] in ("C", "E", "I"):
             bad.append(("error", "warning and return value", "mju_error raised"))
+        if r["site"] in ("Y", "A"):
+            return bad      # stack overflow inside the function: the frame is not released, nothing else to check
         if (parena, pstack, ncon) != (p0, ps0, nc0):
             bad.append(("state", "state unchanged after mju_error", r["post"]))
         return bad
@@ -107,7 +129,13 @@ def site_oracle(r):
                     "nefc=%d but %d of %d contacts keep efc_address >= nefc" % (nefc, r["nstale"], ncon)))
     inside = lambda p: base + nc0 * csz <= p <= base + parena
     s = r["site"]
-    if s == "C":
+    if s in ("Y", "A"):
+        dual = r.get("dual", [])
+        if nw == 0 and (not all(p and inside(p) for p in dual) or nefc != nefc0 or ncon != nc0 or ep != r["ep"]):
+            bad.append(("success_state", "all arrays of the call allocated inside the arena, constraint set unchanged", r["post"][:8] + dual))
+        if nw and (any(ep) or any(ip) or any(dual) or nefc or nisl or parena != nc0 * csz or (nw, wk, wi) != (1, 2, narena) or ncon != nc0):
+            bad.append(("failure_state", "every efc/island/dual pointer NULL, nefc = nisland = 0, parena rolled back, mjWARN_CNSTRFULL(narena)", r["post"][:8] + dual))
+    elif s == "C":
         if ret == 0 and (ncon != nc0 + 1 or nw):
             bad.append(("count", "ncon+1, no warning", r["post"]))
         if ret == 1 and (ncon != nc0 or parena != nc0 * csz or (nw, wk, wi) != (1, 1, nc0)):
@@ -237,6 +265,11 @@ def run(ctx):
     cases = [site_case(r, fixed, ic) for r in allres]
     fails = ctx.coq_eval("c20", COQ_IMPORTS, cases, CHECKER, shard=120, pre=PRE)
     lap("coq_eval_sites")
+    dres, dfails = dual_part(ctx, exe, quick)
+    lap("dual_sites")
+    sup["dual_site_calls"] = len(dres)
+    sup["dual_site_correspondence_disagreements"] = dfails
+    nontriv_d = len({(r["site"], r["scene"], r["avail"]) for r in dres if r["crash"] is not None or r["post"][0] == 1 or r["post"][-3] > 0})
     for i in fails[:5]:
         r = allres[i]
         ctx.violation("correspondence", {"site_call": SITE_NAME[r["site"]], "free_arena_bytes": r["avail"], "scene": r["scene"], "state_before": r["pre"]},
@@ -249,14 +282,14 @@ def run(ctx):
     lap("memory_sweep")
 
     unmodelled_sites(ctx)
-    ctx.cov["evaluations"] = len(allres) + nsweep
-    ctx.cov["distinct_nontrivial"] = nontriv + nfail_runs
+    ctx.cov["evaluations"] = len(allres) + len(dres) + nsweep
+    ctx.cov["distinct_nontrivial"] = nontriv + nontriv_d + nfail_runs
     ctx.cov["rule"] = ("site level: each of pushPairArena / mj_addContact / arenaAllocEfc / arenaAllocIsland called on a real mjData of %d scenes with free-byte counts at every prefix boundary of the X-macro request lists (+-1, +4, +8) and random ones; "
                        "whole step: spec->memory swept from 0 to the needed size (coarse stride, then stride 8 inside every interval where the outcome class changes) on the same scenes, and the 80-body cluster scene at memory 50000..86000; "
                        "non-trivial = distinct site call that failed (warning, mju_error or crash) + distinct sweep run in which an arena allocation failed or mju_error was raised" % (2 if quick else 3))
     ctx.cov["samples"] = [{"site": SITE_NAME[r["site"]], "free_bytes": r["avail"], "scene": r["scene"], "before": r["pre"], "after": (r.get("post") or ["crash"])[:8]}
                           for r in (allres[0], allres[len(allres) // 2], allres[-1])]
-    ctx.cov["correspondence_disagreements"] = len(fails)
+    ctx.cov["correspondence_disagreements"] = len(fails) + dfails
     ctx.cov["explanation"] = ("Client theorems proved for all states/sizes/request lists; model tied at site level on %d calls (%d oracle complaints); whole-step sweep of %d memory sizes observed outcome classes %s" %
                               (len(allres), nsite_viol, nsweep, kinds))
 
@@ -289,6 +322,93 @@ def replay_case(ctx, exe, swp):
     ctx.cov["distinct_nontrivial"] = 0
     ctx.cov["rule"] = "replay of one recorded case"
     ctx.cov["explanation"] = "replay"
+
+
+def dual_phases(site, dinfo):
+    """the phases of mj_makeY / mj_makeAR(dense) as read from engine_core_constraint.c: (mjSTACKALLOCs before the group,
+    arena allocations of the group, positions whose pointers the NULL test looks at)"""
+    sparse, nv, nefc, nY, nA = dinfo
+    if site == "Y":
+        if sparse:
+            return [([(8 * nv, 8)], [(4 * nefc, 4), (4 * nefc, 4)], [0, 1]), ([(4 * nv, 4)], [(8 * nY, 8), (4 * nY, 4)], [0, 1])]
+        return [([(8 * nv, 8)], [(8 * nefc * nv, 8)], [0])]
+    if site == "A" and not sparse:
+        return [([], [(8 * nefc * nefc, 8)], [0]), ([(8 * nv * nefc, 8)], [], [])]
+    return None
+
+
+def phases_coq(phs):
+    pl = lambda l: "[" + "; ".join("(%d, %d)" % x for x in l) + "]"
+    return "[" + "; ".join("(%s, %s, [%s])" % (pl(a), pl(b), "; ".join("%d%%nat" % t for t in c)) for a, b, c in phs) + "]"
+
+
+def dual_part(ctx, exe, quick):
+    """site-level tie and oracle for mj_makeY (sparse and dense) and mj_makeAR (dense)"""
+    rng = ctx.rng
+    allres = []
+    for sc in (DUAL_SCENES[:2] if quick else DUAL_SCENES):
+        rc, out, err = ctx.run(exe, "Y 4000000\nA 4000000\n", args=list(sc))
+        first = parse_sites(out, [("Y", 4000000), ("A", 4000000)]) if rc == 0 else None
+        if not first:
+            ctx.broken.append(("correspondence", "driver c20_sites failed (dual sites)", "rc=%s %s" % (rc, err[-400:])))
+            return [], 0
+        tests = []
+        for site, fr in (("Y", first[0]), ("A", first[1])):
+            phs = dual_phases(site, fr["dinfo"])
+            if phs is None:
+                continue
+            # free-byte counts around every cumulative requirement (frame, stack and arena requests in program order)
+            cum = 24
+            marks = set(range(0, 40))
+            for (sr, ar, _) in phs:
+                for (b, a) in sr + ar:
+                    cum += b
+                    marks |= set(range(max(0, cum - 10), cum + 18))
+            marks |= {cum + 64, cum + 1000}
+            marks = sorted(marks)
+            if quick and len(marks) > 70:
+                marks = sorted(set(rng.sample(marks, 66)) | {0, cum - 1, cum + 16, cum + 1000})
+            tests += [(site, a) for a in marks] + [(site, rng.randrange(0, cum + 64)) for _ in range(6 if quick else 60)]
+        rc, out, err = ctx.run(exe, "".join("%s %d\n" % t for t in tests), args=list(sc))
+        res = parse_sites(out, tests) if rc == 0 else None
+        if not res:
+            ctx.broken.append(("correspondence", "driver c20_sites failed (dual sites)", "rc=%s %s" % (rc, err[-400:])))
+            return [], 0
+        for r in res:
+            r["scene"] = sc
+            r["phases"] = dual_phases(r["site"], r["dinfo"])
+        allres += res
+    seen = set()
+    for r in allres:
+        for (cls, exp, obs) in site_oracle(r):
+            key = (r["site"], cls)
+            if key in seen:
+                continue
+            seen.add(key)
+            ctx.violation("impl_violation", {"site_call": SITE_NAME_D[r["site"]], "free_arena_bytes": r["avail"], "scene(nbody,nlink,cone+10*options,islands,cluster)": r["scene"],
+                                             "state_before(parena,pstack,maxuse_arena,ncon,nefc,nisland)": r["pre"], "sparse,nv,nefc,nY,nA": r["dinfo"]},
+                          expected=exp, observed=obs, theorem="C20_alloc_dual / C20_untested_pointer_refuted", signature={"site": SITE_NAME_D[r["site"]], "class": cls})
+    cases = []
+    for r in allres:
+        p0, ps0, ma0, nc0, nefc0, nisl0 = r["pre"]
+        if r["crash"] is not None:
+            out = [2]
+        elif r["post"][0] == 1:
+            out = [1]
+        else:
+            out = [0] + r["post"][2:] + r.get("dual", [])
+        ndual = sum(len(ph[1]) for ph in r["phases"])
+        cases.append("DC %d %d %d %d %d %d %d %d %d %s %s %s %s %s" % (
+            r["csz"], r["base"], r["narena"], p0, ps0, ma0, nc0, nefc0, nisl0, F.zlist(r["ep"]), F.zlist(r["ip"]),
+            F.zlist([0] * ndual), phases_coq(r["phases"]), F.zlist(out)))
+    fails = ctx.coq_eval("c20d", COQ_IMPORTS, cases, DCHECKER, shard=120, pre=DPRE)
+    for i in fails[:5]:
+        r = allres[i]
+        ctx.violation("correspondence", {"site_call": SITE_NAME_D[r["site"]], "free_arena_bytes": r["avail"], "scene": r["scene"], "state_before": r["pre"], "sparse,nv,nefc,nY,nA": r["dinfo"]},
+                      expected="model outcome (alloc_dual, Model/ArenaClients.v)", observed=(r.get("post") or ["crash"])[:8] + r.get("dual", []), found_input=False,
+                      theorem="correspondence c20_sites (dual sites)",
+                      note="implementation and phased-allocation model disagree at this site, but the implementation output satisfies the oracle")
+    return allres, len(fails)
 
 
 def parse_sweep(out):
@@ -393,22 +513,44 @@ def sweep_one(ctx, swp, sc, post, quick, reported, kinds):
     runs = sweep_scene(ctx, swp, args, sizes)
     if not runs:
         return None
-    key = lambda r: (r["cls"], r.get("ncon"), r.get("nefc"), r.get("wcon", 0) > 0, r.get("wcnstr", 0) > 0)
+    # coarse outcome class, and the window inside it: which allocation (index and size) was the last to fail.
+    # Every allocation site has its own window of memory sizes, however narrow; the refinement (1) locates every change
+    # of the coarse class to the byte, (2) makes sure no window is skipped between two samples, (3) locates window
+    # boundaries (the exact-fit sizes of the individual arrays) to the byte: all of them in thorough, a sample in quick
+    ckey = lambda r: (r["cls"], r.get("ncon"), r.get("nefc"), r.get("wcon", 0) > 0, r.get("wcnstr", 0) > 0, r.get("done"))
+    wkey = lambda r: (r.get("nalloc"), r.get("nfailed"), r.get("lastb"), r.get("lasta"))
     allr = {r["mem"]: r for r in runs}
-    for rnd in range(5 if quick else 7):
+    byte_budget = 8 if quick else 10 ** 9      # window boundaries refined to the byte
+    chosen = set()
+    for rnd in range(6 if quick else 8):
         mems = sorted(allr)
         more = set()
         for a, b in zip(mems, mems[1:]):
-            if b - a > 1 and key(allr[a]) != key(allr[b]):
-                if b - a <= 16:
-                    more |= set(range(a + 1, b))
-                else:
-                    more |= {a + (b - a) * k // 8 for k in range(1, 8)}
+            if b - a <= 1:
+                continue
+            ra, rb = allr[a], allr[b]
+            if ckey(ra) != ckey(rb):
+                pass
+            elif wkey(ra) != wkey(rb):
+                skipped = abs((ra.get("nalloc") or 0) - (rb.get("nalloc") or 0)) > 1
+                if not skipped:
+                    # adjacent windows: refine this boundary only within the budget
+                    bid = (wkey(ra), wkey(rb))
+                    if bid not in chosen:
+                        if len(chosen) >= byte_budget:
+                            continue
+                        chosen.add(bid)
+            else:
+                continue
+            if b - a <= 16:
+                more |= set(range(a + 1, b))
+            else:
+                more |= {a + (b - a) * k // 8 for k in range(1, 8)}
         more -= set(allr)
         if not more:
             break
-        if quick and len(more) > 160:
-            more = set(ctx.rng.sample(sorted(more), 160))
+        if quick and len(more) > 200:
+            more = set(ctx.rng.sample(sorted(more), 200))
         rr = sweep_scene(ctx, swp, args, sorted(more))
         if rr is None:
             return None
@@ -434,9 +576,19 @@ def sweep_part(ctx, swp, quick):
     kinds = {}
     reported = set()
     summary = []
-    plan = [(SWEEP_SCENES[0], 0), (SWEEP_SCENES[1], 0), (("0", "3", "0", "0", "10"), 1)]
+    # third field of a scene: cone + 10 * option bits (c19_scene.h): 1 sparse, 2 dense, 4 PGS, 8 CG, 16 noslip,
+    # 32 implicitfast, 64 implicit, 128 RK4, 256 diagexact.  The option scenes reach the allocation sites that the
+    # defaults (Newton, dense) never execute: mj_makeY / mj_makeAR (dual solvers, noslip, diagexact; sparse and dense
+    # branches), the derivative arrays of the implicit integrators
+    plan = [(SWEEP_SCENES[0], 0), (SWEEP_SCENES[1], 0), (("0", "3", "0", "0", "10"), 1),
+            (("9", "0", "50", "1", "0"), 1), (("5", "2", "61", "0", "0"), 1)]
     if not quick:
         plan += [(sc, 0) for sc in SWEEP_SCENES[2:]] + [(SWEEP_SCENES[0], 1), (("0", "5", "0", "0", "20"), 1), (("2", "3", "1", "0", "10"), 1)]
+        plan += [((nb, nl, str(cone + 10 * bits), isl, cl), 1) for (nb, nl, cone, bits, isl, cl) in (
+            ("6", "2", 0, 1 + 16, "1", "0"), ("6", "2", 1, 2 + 16, "0", "0"), ("6", "2", 0, 1 + 8, "1", "0"),
+            ("6", "2", 0, 1 + 256, "1", "0"), ("6", "2", 1, 2 + 256, "0", "0"), ("5", "2", 0, 1 + 64, "1", "0"),
+            ("5", "2", 0, 2 + 32, "0", "0"), ("4", "1", 0, 128 + 4 + 1, "1", "0"), ("8", "0", 1, 4 + 1, "1", "1"),
+            ("3", "4", 0, 4 + 2, "1", "10"))]
     for sc, post in plan:
         res = sweep_one(ctx, swp, sc, post, quick, reported, kinds)
         if res is None:
